@@ -10,7 +10,9 @@ import time
 
 VERIF = os.path.dirname(os.path.dirname(os.path.abspath(__file__)))
 REPO = os.environ.get('VERIF_REPO', '/repo')
-KDIR = os.path.join(VERIF, 'build', 'kani')
+# build output, replay files and evidence go under VERIF unless a scratch root is given (self-tests on mutated copies)
+SCRATCH = os.environ.get('VERIF_SCRATCH') or VERIF
+KDIR = os.path.join(SCRATCH, 'build', 'kani')
 
 
 def derived_rs(info):
@@ -60,6 +62,9 @@ def prepare(info, subdir='discharge', lib_text=None, extra_files=None):
     open(os.path.join(d, 'src', 'lib.rs'), 'w').write(text)
     dtext, npred = derived_rs(info)
     open(os.path.join(d, 'src', 'derived.rs'), 'w').write(dtext)
+    from . import native
+    open(os.path.join(d, 'src', 'xgen.rs'), 'w').write(native.xgen_rs(info))
+    shutil.copy(os.path.join(VERIF, 'replayer', 'src', 'xspec.rs'), os.path.join(d, 'src', 'xspec.rs'))
     for name, content in (extra_files or {}).items():
         open(os.path.join(d, 'src', name), 'w').write(content)
     return d, text + dtext, npred
